@@ -658,6 +658,41 @@ pub struct Plan {
 
 pub const SERVICE: &str = "verif-svc";
 
+thread_local! {
+    /// constructor arguments of the reporters for the case being run (set by the worker)
+    static CFG: std::cell::RefCell<RepCfg> = std::cell::RefCell::new(RepCfg::default());
+}
+
+/// Constructor arguments of the three reporters: part of the generated case.
+#[derive(Clone, Debug, PartialEq, serde::Serialize, serde::Deserialize)]
+pub struct RepCfg {
+    /// Jaeger service name / Datadog service / OpenTelemetry resource service name
+    pub service: String,
+    pub resource: String,
+    pub ty: String,
+    /// OpenTelemetry span kind: 0 client, 1 server, 2 producer, 3 consumer, 4 internal
+    pub kind: u8,
+    pub scope: String,
+}
+
+impl Default for RepCfg {
+    fn default() -> Self {
+        RepCfg { service: SERVICE.to_string(), resource: "res".into(), ty: "web".into(), kind: 1, scope: "verif-scope".into() }
+    }
+}
+
+pub fn set_cfg(c: &RepCfg) {
+    CFG.with(|x| *x.borrow_mut() = c.clone());
+}
+
+pub fn cfg() -> RepCfg {
+    CFG.with(|x| x.borrow().clone())
+}
+
+fn service() -> String {
+    CFG.with(|x| x.borrow().service.clone())
+}
+
 pub fn realise(plan: &Plan) -> Vec<Rec> {
     let mut out = Vec::new();
     for (i, (kind, fine)) in plan.items.iter().enumerate() {
@@ -688,11 +723,11 @@ pub fn realise(plan: &Plan) -> Vec<Rec> {
         };
         if target > 0 {
             // pad until the single-span datagram has exactly `target` bytes
-            let base = reference_emit_batch(SERVICE, std::slice::from_ref(&r)).len();
+            let base = reference_emit_batch(&service(), std::slice::from_ref(&r)).len();
             let mut pad = target.saturating_sub(base);
             for _ in 0..4 {
                 r.props[0].1 = "p".repeat(pad);
-                let sz = reference_emit_batch(SERVICE, std::slice::from_ref(&r)).len();
+                let sz = reference_emit_batch(&service(), std::slice::from_ref(&r)).len();
                 if sz == target {
                     break;
                 }
@@ -704,7 +739,7 @@ pub fn realise(plan: &Plan) -> Vec<Rec> {
     }
     // kind 4 entries are tiny; when the plan contains one, the batch total is steered onto the limit
     // make the whole batch straddle the limit by a few bytes when it is small enough
-    let total = reference_emit_batch(SERVICE, &out).len();
+    let total = reference_emit_batch(&service(), &out).len();
     if total < UDP_LIMIT && total > 4000 {
         let want = (UDP_LIMIT as i64 + plan.straddle as i64) as usize;
         if want > total {
@@ -809,7 +844,7 @@ pub fn run_jaeger_seq(udp: &UdpSink, prior: &[Vec<Rec>], batch: &[Rec], prop: &s
         return Outcome::Viols(vec![v("report-did-not-return", "an earlier JaegerReporter::report call of this process did not return within 30 s")]);
     }
     let addr = format!("127.0.0.1:{}", udp.port).parse().unwrap();
-    let mut rep = fastrace_jaeger::JaegerReporter::new(addr, SERVICE).unwrap();
+    let mut rep = fastrace_jaeger::JaegerReporter::new(addr, service()).unwrap();
     // earlier batches: the calls must terminate too; their datagrams are drained, not checked
     for (k, pb) in prior.iter().enumerate() {
         let records: Vec<_> = pb.iter().map(|r| r.to_record()).collect();
@@ -874,10 +909,10 @@ pub fn run_jaeger_seq(udp: &UdpSink, prior: &[Vec<Rec>], batch: &[Rec], prop: &s
     match res {
         Err(e) => Outcome::Inconclusive(e),
         Ok(dgrams) => {
-            let mut vs = check_jaeger(SERVICE, batch, &dgrams, prop);
+            let mut vs = check_jaeger(&service(), batch, &dgrams, prop);
             // validate the reference encoder against the real single-span datagrams
             if batch.len() == 1 && dgrams.len() == 1 {
-                let refb = reference_emit_batch(SERVICE, batch);
+                let refb = reference_emit_batch(&service(), batch);
                 if refb != dgrams[0] && vs.is_empty() {
                     return Outcome::Inconclusive(format!("harness: reference encoder disagrees with the real datagram ({} vs {} bytes)", refb.len(), dgrams[0].len()));
                 }
